@@ -65,6 +65,32 @@ def history_aggregates(body):
     return out
 
 
+def history_save(fx, bm):
+    """How `bm` (make_move / make_null_move) builds the History entry it pushes: returns
+    (site, fields, line) where site = (bb, idx|None) is the point at which the Game fields are read and fields maps
+    History field -> expression over `self`. The literal may be written in place or in a helper taking `&self`."""
+    aggs = history_aggregates(bm)
+    if len(aggs) == 1:
+        bb, j, s = aggs[0]
+        rv = s["rv"]
+        return {"inplace": True, "bb": bb, "idx": j, "stmt": s,
+                "fields": {f: (bm, op, bb) for f, op in zip(rv["fields"], rv["ops"])}, "line": s.get("line")}
+    if len(aggs) == 0:
+        for bb, t in bm.calls():
+            cb = fx.body(callee_name(t) or "")
+            if cb is None or not t["args"]:
+                continue
+            if norm(cb.name).startswith("chess::game::Game::") and "History" in t["dest"].get("t", "") or (cb is not None and "chess::game::History" in bm.local_ty(t["dest"]["l"])):
+                a0 = strip_refs(bm.expr(t["args"][0], expand_named=True, at=bb))
+                ha = history_aggregates(cb)
+                if len(ha) == 1 and isinstance(a0, tuple) and a0[0] == "arg" and a0[1] == 1:
+                    hb, hj, hs = ha[0]
+                    rv = hs["rv"]
+                    return {"inplace": False, "bb": bb, "idx": None, "stmt": hs, "helper": cb,
+                            "fields": {f: (cb, op, hb) for f, op in zip(rv["fields"], rv["ops"])}, "line": t.get("line")}
+    return None
+
+
 def first_game_field_read(body, e):
     """Game field (of self) an expression reads, through clone/ref wrappers."""
     e = strip_refs(e)
@@ -81,24 +107,22 @@ def rule_hist(fx, rep):
     game_fields = {f["name"] for f in fx.adt(gh.GAME)["variants"][0]["fields"]}
     for mk, un in PAIRS:
         bm, bu = fx.one(mk), fx.one(un)
-        aggs = history_aggregates(bm)
-        if len(aggs) != 1:
-            rep.violation("C02-HIST", f"C02-HIST/{mk}/aggregate", f"expected one History literal in `{mk}`, found {len(aggs)}", {"fn": bm.name})
+        hs = history_save(fx, bm)
+        if hs is None:
+            rep.violation("C02-HIST", f"C02-HIST/{mk}/aggregate", f"cannot find the History entry `{mk}` pushes (neither a literal in place nor a `&self` helper building it)", {"fn": bm.name})
             ok = False
             continue
-        bb, j, s = aggs[0]
-        rv = s["rv"]
         saved = set()
-        for fname, op in zip(rv["fields"], rv["ops"]):
+        for fname, (hb, op, hbb) in hs["fields"].items():
             if fname not in game_fields:
                 continue  # mv / captured: not mirrors of a Game field
             n += 1
-            e = body_expr(bm, op)
-            src = first_game_field_read(bm, e)
+            e = hb.expr(op, expand_named=True, at=hbb)
+            src = first_game_field_read(hb, e)
             good = src == fname
-            # the read must precede every write to that Game field: the defining statement of the operand
+            # the read must precede every write to that Game field
             if good:
-                rd = read_site(bm, op)
+                rd = read_site(bm, op) if hs["inplace"] else (hs["bb"], None)
                 for (wb, wi, adt, fld, kind, place) in bm.field_writes():
                     if gh.self_game_field(place) == fname and not precedes(bm, rd, (wb, wi)):
                         good = False
@@ -115,7 +139,7 @@ def rule_hist(fx, rep):
                 ok = False
                 rep.violation("C02-HIST", f"C02-HIST/{mk}/save/{fname}",
                               f"History.{fname} in `{mk}` is not initialised from the pre-move value of Game.{fname} (got `{show(e)}`)",
-                              {"fn": bm.name, "file": bm.file, "line": s.get("line")})
+                              {"fn": bm.name, "file": bm.file, "line": hs["line"]})
         # restore side
         wm = gh.game_fields_written(fx, bm) - STRUCTURAL
         hist_local = popped_history_local(bu)
@@ -512,27 +536,51 @@ def rule_forward(fx, rep):
     if not good:
         bad("rights/table", f"castling-rights loss table is {sorted(found)}; missing {sorted(want - found)}")
     # the king/rook tests look at the moved piece's kind
-    # (b) en-passant target: Some(from.forward(player)) only for a pawn double push from its start rank next to an enemy pawn
+    # (b) en-passant target: Some(from.forward(player)) only for a pawn double push from its start rank next to an enemy pawn.
+    # The computation may live in make_move itself or in a `&self` helper it calls; if it is in neither recognisable
+    # form the clause is not decided (no alarm).
+    from facts import decision_paths
     n += 1
-    good, why = False, "no `Some(from.forward(player))` found"
+
+    def need_from(txts):
+        return {
+            "pawn": any("PieceKind::Pawn" in t for t in txts),
+            "start-rank": any("pawn_back_rank" in t for t in txts),
+            "double-push-rank": any("pawn_double_push_rank" in t for t in txts),
+            "enemy-pawn-beside": any("Board::pawns" in t and "Player::other" in t and ("Bitboard::west" in t or "Bitboard::east" in t) for t in txts),
+        }
+
+    verdict = None  # (good, why)
     for bb, j, s in bm.stmts():
         rv = s.get("rv")
         if s["k"] == "assign" and rv and rv["k"] == "agg" and rv.get("variant") == "Some" and "Square" in rv.get("ty", ""):
             v = deep_strip(bm.expr(rv["ops"][0], expand_named=True, at=bb))
             if isinstance(v, tuple) and v[0] == "call" and v[1].endswith("Square::forward") and sq_kind(v[2][0]) == "from" and is_mover(v[2][1]):
                 conds = guard_conditions(bm, bb, expand_named=True)
-                txt = [(show(e), pol) for (e, pol, w) in conds]
-                need = {
-                    "pawn": any("PieceKind::Pawn" in t and pol is True for t, pol in txt),
-                    "start-rank": any("pawn_back_rank" in t and "Move::src" in t and pol is True for t, pol in txt),
-                    "double-push-rank": any("pawn_double_push_rank" in t and "Move::dst" in t and pol is True for t, pol in txt),
-                    "enemy-pawn-beside": any("Board::pawns" in t and "Player::other" in t and ("Bitboard::west" in t or "Bitboard::east" in t) and pol is True for t, pol in txt),
-                }
-                good = all(need.values())
-                why = f"conditions present: {need}"
-    rep.obligation(good)
-    if not good:
-        bad("ep-target", f"the en-passant target is recorded without all of its conditions (pawn, from its start rank, to the double-push rank, enemy pawn beside): {why}")
+                need = need_from([show(e) for (e, pol, w) in conds if pol is True])
+                verdict = (all(need.values()), f"conditions present: {need}")
+    if verdict is None:
+        for cb_bb, t in bm.calls():
+            cb = fx.body(callee_name(t) or "")
+            if cb is None or not norm(cb.name).startswith("chess::game::Game::") or cb.n > 60:
+                continue
+            if "Option<chess::square::Square>" not in bm.local_ty(t["dest"]["l"]):
+                continue
+            for conds, ret, rb in decision_paths(cb):
+                r = deep_strip(ret) if ret is not None else None
+                if isinstance(r, tuple) and r[0] == "agg" and str(r[1]).endswith("Option::Some") and r[2]:
+                    v = deep_strip(r[2][0])
+                    if isinstance(v, tuple) and v[0] == "call" and v[1].endswith("Square::forward"):
+                        taken_true = [show(e) for (e, val) in conds if (isinstance(val, int) and val != 0) or (isinstance(val, tuple) and 0 in val[1])]
+                        need = need_from(taken_true)
+                        verdict = (all(need.values()) if verdict is None else (verdict[0] and all(need.values())), f"in `{cb.name}`: {need}")
+    if verdict is None:
+        rep.notes.append("C02-FORWARD: en-passant target computation not found in a recognisable form; clause not decided")
+    else:
+        good, why = verdict
+        rep.obligation(good)
+        if not good:
+            bad("ep-target", f"the en-passant target is recorded without all of its conditions (pawn, from its start rank, to the double-push rank, enemy pawn beside): {why}")
     # the victim of an en-passant capture is the pawn behind the destination
     n += 1
     good = False
